@@ -13,6 +13,9 @@ FOREIGN = [
     "#[doc = \"some doc\"]", "/// doc comment", "#[allow(dead_code)]", "#[cfg_attr(test, allow(unused))]",
     "#[serde(rename = \"x\", skip)]", "#[a::b(c)]", "#[path_attr::nested::deep]", "#[name = \"value\"]",
     "#[must_use]", "#[rustfmt::skip]", "#[clippy::foo]", "#[derive(Foo)]", "#[cfg(all())]", "#[inline]",
+    # path attributes whose last segment is spelled like a helper attribute / like derive_ex: foreign all the same
+    "#[foo::debug]", "#[clippy::default]", "#[x::ord(ignore)]", "#[a::partial_eq]", "#[other::hash(key = 1)]",
+    "#[derive_ex::derive_ex(Clone)]", "#[q::derive_ex(Debug)]", "#[m::eq = \"v\"]",
 ]
 TYPE_FOREIGN = ["#[repr(C)]", "#[non_exhaustive]", "#[derive(Other, Traits)]", "#[repr(u8)]"]
 VIS = ["", "pub ", "pub(crate) ", "pub(super) ", "pub(in crate) "]
